@@ -304,6 +304,9 @@ class Ctx:
             meta = {**(meta or {}), "solver": self.contract.options["solver"]}
         if self.contract.options.get("sum_monotone"):
             meta = {**(meta or {}), "sum_monotone": True}
+        for opt in ("nl_factor_order", "argmax_congruence"):
+            if self.contract.options.get(opt):
+                meta = {**(meta or {}), opt: self.contract.options[opt]}
         ob = Obligation(full, state.pc, goal, meta)
         if goal is True:
             # decided by evaluation on this path (no solver needed); still counted
@@ -678,6 +681,8 @@ def _solve_one(args):
     idx, timeout_ms = args
     ob, obs = _OBLS[idx]
     t0 = time.time()
+    T.NL_ORDER[0] = ob.meta.get("nl_factor_order", "id")      # workers are reused: set for every obligation
+    T.ARGMAX_CONGRUENCE[0] = ob.meta.get("argmax_congruence", "syntactic")
     _DEADLINE[0] = t0 + 2.0 * timeout_ms / 1000.0     # total budget of this obligation over all strategies
     attempts = []
     model = None
